@@ -56,6 +56,9 @@ func main() {
 			usage()
 		}
 		os.Exit(replay(os.Args[2]))
+	case "solo":
+		// internal: run one C18 task alone on a fresh world in this fresh process (pristine solo baseline)
+		os.Exit(scenario.SoloMain(os.Stdin, os.Stdout))
 	case "selftest":
 		os.Exit(selftest(os.Args[2:]))
 	default:
@@ -435,81 +438,81 @@ func check(prop, tier string) int {
 	deaths := 0
 	partB := map[string]interface{}{}
 	supervise := func(self string, dir string, W int) {
-	var procs []*procState
-	for w := 0; w < W; w++ {
-		procs = append(procs, spawn(self, prop, tier, seed, w, W, 0, dir, false))
-	}
-	// supervise
-	for len(procs) > 0 {
-		var next []*procState
-		for _, p := range procs {
-			select {
-			case err := <-p.done:
-				if err == nil {
-					continue
-				}
-				// abnormal death
-				if ee, ok := err.(*exec.ExitError); ok && ee.ExitCode() == 3 {
-					fmt.Printf("worker %d stopped on a harness panic (see %s): infrastructure trouble\n", p.w, filepath.Join(dir, fmt.Sprintf("log-%d-%d.txt", p.w, p.start)))
-					if lb, e2 := ioutil.ReadFile(filepath.Join(dir, fmt.Sprintf("log-%d-%d.txt", p.w, p.start))); e2 == nil {
-						fmt.Println(strings.SplitN(string(lb), "\n", 2)[0])
-					}
-					infra = true
-					continue
-				}
-				deaths++
-				ixb, _ := ioutil.ReadFile(filepath.Join(dir, fmt.Sprintf("cur-%d", p.w)))
-				ix, _ := strconv.Atoi(strings.TrimSpace(string(ixb)))
-				fmt.Printf("worker %d died (%v) while running index %d\n", p.w, err, ix)
-				v, ok := investigate(self, s, prop, tier, seed, p.w, W, ix, dir, "death", stallLimit)
-				if ok {
-					extra = append(extra, v)
-				} else {
-					fmt.Printf("worker death at index %d did not reproduce in isolation: infrastructure trouble\n", ix)
-					infra = true
-				}
-				if deaths > 40 {
-					fmt.Println("too many worker deaths; giving up on the remaining indices of this worker")
-					infra = true
-					continue
-				}
-				next = append(next, spawn(self, prop, tier, seed, p.w, W, ix+1, dir, false))
-			default:
-				// stall detection by the write-ahead index file
-				ixb, _ := ioutil.ReadFile(filepath.Join(dir, fmt.Sprintf("cur-%d", p.w)))
-				if string(ixb) != p.lastIx {
-					p.lastIx = string(ixb)
-					p.lastCh = time.Now()
-				} else if time.Since(p.lastCh) > stallLimit {
-					ix, _ := strconv.Atoi(strings.TrimSpace(string(ixb)))
-					fmt.Printf("worker %d stalled for %v at index %d; killing it\n", p.w, stallLimit, ix)
-					p.cmd.Process.Kill()
-					<-p.done
-					if hangs >= 1 {
-						// a hang is already confirmed and will be reported: do not spend 10x the limit on every further one
-						fmt.Printf("stall at index %d not investigated (%d hangs already confirmed); this worker's remaining indices are dropped\n", ix, hangs)
-						gaveUp = true
+		var procs []*procState
+		for w := 0; w < W; w++ {
+			procs = append(procs, spawn(self, prop, tier, seed, w, W, 0, dir, false))
+		}
+		// supervise
+		for len(procs) > 0 {
+			var next []*procState
+			for _, p := range procs {
+				select {
+				case err := <-p.done:
+					if err == nil {
 						continue
 					}
-					v, ok := investigate(self, s, prop, tier, seed, p.w, W, ix, dir, "hang", stallLimit*4)
+					// abnormal death
+					if ee, ok := err.(*exec.ExitError); ok && ee.ExitCode() == 3 {
+						fmt.Printf("worker %d stopped on a harness panic (see %s): infrastructure trouble\n", p.w, filepath.Join(dir, fmt.Sprintf("log-%d-%d.txt", p.w, p.start)))
+						if lb, e2 := ioutil.ReadFile(filepath.Join(dir, fmt.Sprintf("log-%d-%d.txt", p.w, p.start))); e2 == nil {
+							fmt.Println(strings.SplitN(string(lb), "\n", 2)[0])
+						}
+						infra = true
+						continue
+					}
+					deaths++
+					ixb, _ := ioutil.ReadFile(filepath.Join(dir, fmt.Sprintf("cur-%d", p.w)))
+					ix, _ := strconv.Atoi(strings.TrimSpace(string(ixb)))
+					fmt.Printf("worker %d died (%v) while running index %d\n", p.w, err, ix)
+					v, ok := investigate(self, s, prop, tier, seed, p.w, W, ix, dir, "death", stallLimit)
 					if ok {
 						extra = append(extra, v)
-						hangs++
 					} else {
-						fmt.Printf("stall at index %d did not reproduce with a 4x limit: infrastructure trouble\n", ix)
+						fmt.Printf("worker death at index %d did not reproduce in isolation: infrastructure trouble\n", ix)
 						infra = true
 					}
+					if deaths > 40 {
+						fmt.Println("too many worker deaths; giving up on the remaining indices of this worker")
+						infra = true
+						continue
+					}
 					next = append(next, spawn(self, prop, tier, seed, p.w, W, ix+1, dir, false))
-					continue
+				default:
+					// stall detection by the write-ahead index file
+					ixb, _ := ioutil.ReadFile(filepath.Join(dir, fmt.Sprintf("cur-%d", p.w)))
+					if string(ixb) != p.lastIx {
+						p.lastIx = string(ixb)
+						p.lastCh = time.Now()
+					} else if time.Since(p.lastCh) > stallLimit {
+						ix, _ := strconv.Atoi(strings.TrimSpace(string(ixb)))
+						fmt.Printf("worker %d stalled for %v at index %d; killing it\n", p.w, stallLimit, ix)
+						p.cmd.Process.Kill()
+						<-p.done
+						if hangs >= 1 {
+							// a hang is already confirmed and will be reported: do not spend 10x the limit on every further one
+							fmt.Printf("stall at index %d not investigated (%d hangs already confirmed); this worker's remaining indices are dropped\n", ix, hangs)
+							gaveUp = true
+							continue
+						}
+						v, ok := investigate(self, s, prop, tier, seed, p.w, W, ix, dir, "hang", stallLimit*4)
+						if ok {
+							extra = append(extra, v)
+							hangs++
+						} else {
+							fmt.Printf("stall at index %d did not reproduce with a 4x limit: infrastructure trouble\n", ix)
+							infra = true
+						}
+						next = append(next, spawn(self, prop, tier, seed, p.w, W, ix+1, dir, false))
+						continue
+					}
+					next = append(next, p)
 				}
-				next = append(next, p)
+			}
+			procs = next
+			if len(procs) > 0 {
+				time.Sleep(50 * time.Millisecond)
 			}
 		}
-		procs = next
-		if len(procs) > 0 {
-			time.Sleep(50 * time.Millisecond)
-		}
-	}
 	}
 	supervise(self, dir, W)
 	expected := s.Indices(tier)
@@ -521,7 +524,7 @@ func check(prop, tier string) int {
 			infra = true
 		} else {
 			os.Setenv("IONSIM_C18_MODE", "free")
-			spawnEnv = []string{"IONSIM_C18_MODE=free", "GORACE=halt_on_error=0 history_size=4"}
+			spawnEnv = []string{"IONSIM_C18_MODE=free", "GORACE=halt_on_error=0 history_size=4 atexit_sleep_ms=0"}
 			bdir := filepath.Join(dir, "free")
 			os.MkdirAll(bdir, 0755)
 			tB := time.Now()
@@ -968,7 +971,7 @@ func replayFree(rf replayFile, path string) int {
 		if attempt%3 == 2 {
 			gmp = "GOMAXPROCS=2"
 		}
-		cmd.Env = append(os.Environ(), gmp, "IONSIM_C18_MODE=free", "GORACE=halt_on_error=0 history_size=4")
+		cmd.Env = append(os.Environ(), gmp, "IONSIM_C18_MODE=free", "GORACE=halt_on_error=0 history_size=4 atexit_sleep_ms=0")
 		var outb, errb strings.Builder
 		cmd.Stdout = &outb
 		cmd.Stderr = &errb
